@@ -1,4 +1,4 @@
 From Coq Require Import Extraction ExtrOcamlBasic ZArith List.
 From LP Require Import Num C04_Model C05_Model.
 Extraction Language OCaml.
-Extraction "C05_m.ml" mat_of_entries determinant invertible inverse orthogonal srun mrun m_product transpose wf_mat square Z.of_nat Z.to_nat.
+Extraction "C05_m.ml" mat_of_entries determinant invertible inverse orthogonal srun mrun hrun hmrun m_product transpose wf_mat square Z.of_nat Z.to_nat.
